@@ -155,6 +155,7 @@ func (db *DB) newMem(n int) (mem *memDB, err error) {
 	// The seq only incremented by the writer. And whoever called newMem
 	// should hold write lock, so no need additional synchronization here.
 	db.frozenSeq = db.seq
+	verifAt("m.rotate", db.frozenSeq, fd.Num)
 	return
 }
 
@@ -206,6 +207,7 @@ func (db *DB) dropFrozenMem() {
 	db.frozenJournalFd = storage.FileDesc{}
 	db.frozenMem.decref()
 	db.frozenMem = nil
+	verifAt("m.drop")
 	db.memMu.Unlock()
 }
 
